@@ -21,8 +21,9 @@ did not change; `openSession` is not guarded against being entered twice (the Q_
 
 One element per step (the harness sends one element per read).  Sockets: `disconnectFromHost()` on a
 connected socket delivers `disconnected` synchronously (observed), so closing is atomic here.
-Not modelled: DNS/SRV address lists (`TryNext`), direct TLS, resumption `location`, SM counters and acks
-(C09), mechanism ranking beyond {PLAIN, SCRAM-SHA-1, HT-SHA-256-NONE} (C05), timers.
+Not modelled: DNS/SRV address lists (`TryNext`), direct TLS, SM counters and acks (C09), mechanism ranking beyond
+{PLAIN, SCRAM-SHA-1, HT-SHA-256-NONE} (C05), the keep-alive TIMEOUT and the reconnection timer.  Time is the event `tick`
+(one expiry of the keep-alive interval); the resume `location` of `<enabled/>` is `resumeLoc` / `connectTarget`.
 No proofs in this file.
 -/
 namespace Qx.C04
@@ -59,6 +60,8 @@ structure Cfg where
   inactive : Bool := false
   /-- `QSslSocket::supportsSsl()` -/
   localTls : Bool := true
+  /-- `keepAliveInterval() > 0` (the keep-alive timeout is not modelled: the harness sets it to 0 = off) -/
+  keepAlive : Bool := false
   deriving DecidableEq, Repr
 
 structure S2Feat where
@@ -118,7 +121,8 @@ inductive El
   | s2Continue
   | iq (k : IqKind)
   | message | presence
-  | smEnabled (resume : Bool) | smFailed | smResumed
+  /-- `loc`: `<enabled resume='true' location='host:port'/>`, a preferred address for the reconnect (XEP-0198) -/
+  | smEnabled (resume : Bool) (loc : Bool := false) | smFailed | smResumed
   | streamError (seeOtherHost : Bool)
   | streamClose
   | xiq (k : XKind)                    -- `<iq/>` outside jabber:client
@@ -135,6 +139,7 @@ inductive Ev
   | sendIq              -- application: QXmppOutgoingClient::sendIq
   | recvWhitespace      -- server: a whitespace keep-alive (XmppSocket hands a null element to the listener)
   | recvPartial         -- server: the beginning of an element (stays in the read buffer)
+  | tick                -- time: the keep-alive interval elapses (the ping timer fires if it is running)
   | closeTail           -- server: the `</stream:stream>` that ends a read whose elements have just been dispatched
                         -- (`<stream:error>…</stream:error></stream:stream>` in ONE segment = recv streamError, then closeTail)
   deriving DecidableEq, Repr
@@ -146,6 +151,7 @@ inductive Kind
   | sasl2Auth (m : Used) (bind2 sm resume inactive reqToken fast : Bool) | sasl2Response | sasl2Abort
   | bind | smEnable | smResume | smReq | smAck
   | iqReply (error : Bool) | iqRequest (roster : Bool) | presence
+  | ping   -- the keep-alive `<iq type='get'><ping xmlns='urn:xmpp:ping'/></iq>`
   | csiActive | csiInactive
   deriving DecidableEq, Repr
 
@@ -181,6 +187,11 @@ inductive Listener
 inductive Conn | disconnected | connecting | connected
   deriving DecidableEq, Repr
 
+/-- where a TCP connection goes: the configured host/port, the address of a see-other-host error, or the `location` of an
+`<enabled/>` (XEP-0198 preferred reconnect address) -/
+inductive Addr | configured | redirect | location
+  deriving DecidableEq, Repr
+
 structure St where
   cfg : Cfg
   conn : Conn := .disconnected
@@ -201,6 +212,10 @@ structure St where
   smEnabled : Bool := false
   smResumed : Bool := false
   canResume : Bool := false
+  /-- C2sStreamManager::m_resumeHost/m_resumePort hold a `location` (only ever overwritten by another location) -/
+  resumeLoc : Bool := false
+  /-- the address of the current / last TCP connection attempt -/
+  target : Addr := .configured
   /-- StreamAckManager::m_enabled -/
   ackEnabled : Bool := false
   /-- stanzas kept for re-sending (kinds only) -/
@@ -250,7 +265,7 @@ def onSocketDisconnected (s : St) : R :=
   let s1 := { s with authenticated := false }
   if s1.redirect then
     let r := if s1.sessionStarted then closeSession s1 else (s1, [])
-    ({ r.1 with redirect := false, conn := .connecting, encrypted := false }, r.2)
+    ({ r.1 with redirect := false, conn := .connecting, encrypted := false, target := .redirect }, r.2)
   else closeSession s1
 
 /-- `XmppSocket::disconnectFromHost` -/
@@ -379,8 +394,9 @@ def handleFeatures (s : St) (f : Features) : R :=
           else openSession s1
 
 /-- `C2sStreamManager::onEnabled` -/
-def onSmEnabled (s : St) (resume : Bool) : R :=
-  enableAck { s with canResume := resume, smEnabled := true }
+def onSmEnabled (s : St) (resume : Bool) (loc : Bool := false) : R :=
+  -- `setResumeAddress` only when resumable and a location is given; an `<enabled/>` without location leaves the stored one
+  enableAck { s with canResume := resume, smEnabled := true, resumeLoc := s.resumeLoc || (resume && loc) }
 
 /-- `C2sStreamManager::onResumed` -/
 def onSmResumed (s : St) : R :=
@@ -533,8 +549,8 @@ def smResumeHandle (s : St) : El → R
   | _ => reject s
 
 def smEnableHandle (s : St) : El → R
-  | .smEnabled resume =>
-    let r1 := onSmEnabled s resume
+  | .smEnabled resume loc =>
+    let r1 := onSmEnabled s resume loc
     let r2 := openSession r1.1
     ({ r2.1 with listener := .idle }, r1.2 ++ r2.2)
   | .smFailed =>
@@ -579,6 +595,20 @@ def recv (s : St) (e : El) : R :=
         | .streamClose => disconnectFromHost s
         | _ => dispatch s e
 
+/-- `QXmppOutgoingClient::connectToHost`: the resume location if the stream manager holds one for a stream it can still
+resume (`hasResumeAddress()`), else the configured host (DNS/SRV lookups are outside the model) -/
+def connectTarget (s : St) : Addr :=
+  if s.canResume ∧ s.resumeLoc then .location else .configured
+
+/-- `PingManager`: the ping timer is started by the `connected` signal (end of `openSession`) if the interval is > 0 and
+stopped by the `disconnected` signal (`closeSession`) — exactly the two places that set and clear the session flag, so
+"armed" is a function of the state, not a separate field -/
+def St.pingArmed (s : St) : Bool := s.cfg.keepAlive && s.sessionStarted
+
+/-- `PingManager::sendPing`: `<r/>` if stream management is on, else a ping IQ -/
+def sendPing (s : St) : R :=
+  if s.ackEnabled then (s, [send s .smReq]) else (s, [send s .ping])
+
 def sendIq (s : St) : R :=
   let r := sendStanza s (.iqRequest false)
   if ¬ s.ackEnabled ∧ s.conn ≠ .connected then (r.1, r.2 ++ [.sig (.iqDone true)])
@@ -586,7 +616,8 @@ def sendIq (s : St) : R :=
 
 def step (s : St) : Ev → R
   | .connectToServer =>
-    if s.conn = .disconnected then ({ s with conn := .connecting, encrypted := false, hasToken := s.cfg.token }, [])
+    if s.conn = .disconnected then
+      ({ s with conn := .connecting, encrypted := false, hasToken := s.cfg.token, target := connectTarget s }, [])
     else
       -- `QSslSocket::connectToHost` resets the socket to unencrypted mode before `QAbstractSocket` refuses the call
       -- (observed); what the link does afterwards is outside the model (never generated except as a last op)
@@ -606,6 +637,7 @@ def step (s : St) : Ev → R
     (s, [])
   | .recvPartial =>
     if s.conn ≠ .connected ∨ s.wedged then (s, []) else ({ s with wedged := true }, [])
+  | .tick => if s.pingArmed then sendPing s else (s, [])
   | .closeTail =>
     -- `streamClosed` → `QXmppOutgoingClient::disconnectFromHost`: forgets the resumption state and closes the socket if it is
     -- still connected (after a see-other-host in the same read it is not)
